@@ -37,5 +37,6 @@ void fatal_dump(const char *m) { printf("NATIVE-FATAL: %s\n", m); fflush(stdout)
 extern "C" void VF_ENTRY(void);
 int main() {
     std::set_terminate([] { printf("NATIVE-TERMINATE: uncaught exception\n"); fflush(stdout); _Exit(1); });
+    printf("NATIVE-MAIN\n"); fflush(stdout); // global constructors are done: anything that fails from here on fails inside the harness entry
     VF_ENTRY(); printf("NATIVE-PASS\n"); return 0;
 }
